@@ -386,9 +386,10 @@ Definition digit_str (n : nat) : string :=
   match n with
   | 0 => "0" | 1 => "1" | 2 => "2" | 3 => "3" | 4 => "4" | 5 => "5" | 6 => "6" | 7 => "7" | 8 => "8" | _ => "9"
   end.
+(* (printing helper of the harness table only; "?" marks exhausted fuel, which S n never reaches) *)
 Fixpoint nat_str_fuel (fuel n : nat) : string :=
   match fuel with
-  | O => ""
+  | O => "?"
   | S f => if Nat.ltb n 10 then digit_str n else nat_str_fuel f (Nat.div n 10) ++ digit_str (Nat.modulo n 10)
   end.
 Definition nat_str (n : nat) : string := nat_str_fuel (S n) n.
